@@ -291,3 +291,19 @@ PROPS["C09"] = dict(
     assumptions=COMMON_ASSUMPTIONS + ["hwloc_distrib: pairwise disjointness is demanded for until=INT_MAX and n <= #PUs only (with a cut-off the documented result repeats cpusets)",
                                       "hwloc_get_closest_objs and hwloc_get_common_ancestor_obj are driven with objects that have CPU sets"],
 )
+
+
+PROPS["C19"] = dict(
+    level_text="Exhaustive within bounds: every state (roots x configurations and their depth-1 successors) x 3 file offsets goes through "
+               "get_length / write into a mapping followed by a PROT_NONE guard page / exact file size / every single deviation of "
+               "(address, length, offset), a foreign ABI word and an occupied range / valid adoption / dump and XML equivalence / well-formedness / "
+               "the read-only battery and every op of the modifying alphabet on the adopted topology (PROT_READ mapping: any store faults "
+               "and is reported) / allow() / destroy leaves the range reusable.",
+    technique="explicit-state enumeration of topologies x bounded fault/deviation enumeration on the real shmem code with MMU-based write detection",
+    design_ref="DESIGN.md 5 (C19), 2.5",
+    stages=[simple("shmem", "c19_shmem", parts=100, deadline={"quick": 120, "thorough": 3000})],
+    explanation="The guard page makes 'length suffices' decidable by the MMU rather than by inspection; the read-only mapping does the same for 'modifiers do not touch the mapping'.",
+    bounds={"quick": "modifying ops on root states and every 10th depth-1 state", "thorough": "modifying ops on every depth-1 state"},
+    assumptions=COMMON_ASSUMPTIONS + ["object-level edits that take no topology argument (infos, subtype) are documented as forbidden on adopted topologies and are not driven",
+                                      "writer and adopter are the same process (a second process would only change which addresses are free)"],
+)
